@@ -24,6 +24,10 @@ UNOPS = [ast.USub, ast.UAdd, ast.Invert, ast.Not]
 PRELUDE = """\
 import os
 import os as o2
+import os.path
+import posixpath
+import posixpath as pp2
+from os import path as ospath
 from typing import Any
 a: int = 1
 b: int = 2
@@ -116,6 +120,15 @@ class Gen:
                 a.defaults = [ast.Constant(value=1)]
             if rng.random() < 0.1:
                 a.vararg = ast.arg(arg="va")
+            # every kind of parameter a lambda can have: positional-only, keyword-only after `*` or `*va`, `**kw`, defaults
+            if rng.random() < 0.2:
+                a.kwonlyargs = [ast.arg(arg=x) for x in rng.sample(["k1", "k2"], rng.randrange(1, 3))]
+                a.kw_defaults = [ast.Constant(value=0) if rng.random() < 0.4 else None for _ in a.kwonlyargs]
+            if rng.random() < 0.1:
+                a.kwarg = ast.arg(arg="kw")
+            if rng.random() < 0.1 and names:
+                a.posonlyargs, a.args = a.args[:1], a.args[1:]
+                a.defaults = a.defaults[: len(a.args)]
             return ast.Lambda(args=a, body=e())
         if k == "list":
             return ast.List(elts=[e() for _ in range(rng.randrange(0, 3))], ctx=ast.Load())
